@@ -86,10 +86,12 @@ type c17Case struct {
 	Keys   []c17Key `json:"keys"`
 	Filter []uint32 `json:"filter,omitempty"` // -sflow-type-filter a,b,c
 	EqForm bool     `json:"eq_form"`          // -k=v instead of -k v for non-boolean flags
+	// ConfigPos: where "-config <file>" stands among the command-line settings (0 = first, n = after n of them)
+	ConfigPos int `json:"config_pos,omitempty"`
 }
 
 const c17Rule = "case = 1..8 settings from the 45-entry table (yaml key, flag name, VFLOW_* variable, kind, default; transcribed from docs/config.md and NewOptions), each given by a random non-empty subset of " +
-	"{environment, configuration file (-config <file>), command line} with distinct valid values (ports/sizes/worker counts in range, booleans, strings incl. ones needing YAML quoting; a source may also pin the built-in default value), optionally -sflow-type-filter a,b,c; " +
+	"{environment, configuration file (-config <file>, placed before, between or after the other flags), command line} with distinct valid values (ports/sizes/worker counts in range, booleans, strings incl. ones needing YAML quoting; a source may also pin the built-in default value), optionally -sflow-type-filter a,b,c; " +
 	"executed by the real option loading (environment, YAML file, flags) in the package-main driver; oracle = effective value is the command line's, else the file's, else the environment's, else the default; untouched settings keep their defaults; " +
 	"the filter option parses to [a,b,c]; non-trivial = some setting has >= 2 sources; distinct by hash"
 
@@ -99,6 +101,7 @@ var c17Strings = []string{"x", "vflow.test", "/tmp/some file.log", "a: b", "#not
 func genC17(t *rapid.T) c17Case {
 	var c c17Case
 	c.EqForm = rapid.Bool().Draw(t, "eqform")
+	c.ConfigPos = rapid.SampledFrom([]int{0, 0, 1, 2, 99}).Draw(t, "configpos")
 	n := rapid.IntRange(1, 8).Draw(t, "nkeys")
 	perm := rapid.Permutation(intRange(len(c17Table))).Draw(t, "keys")
 	for _, idx := range perm[:n] {
@@ -225,6 +228,34 @@ func runC17(c *c17Case) (v verdict, sig string, err error) {
 		sort.Strings(cfg)
 		text := strings.Join(cfg, "\n") + "\n"
 		req.Config = &text
+		if c.ConfigPos > 0 {
+			// "-config <file>" after some (or all) of the other flags; arguments come in flag/value groups
+			var groups [][]string
+			for i := 0; i < len(req.Args); i++ {
+				g := []string{req.Args[i]}
+				if !strings.Contains(req.Args[i], "=") && i+1 < len(req.Args) {
+					i++
+					g = append(g, req.Args[i])
+				}
+				groups = append(groups, g)
+			}
+			pos := c.ConfigPos
+			if pos > len(groups) {
+				pos = len(groups)
+			}
+			var args []string
+			for i, g := range groups {
+				if i == pos {
+					args = append(args, "@CONFIG@")
+				}
+				args = append(args, g...)
+			}
+			if pos >= len(groups) {
+				args = append(args, "@CONFIG@")
+			}
+			req.Args = args
+			v.label(len(groups) > 0, "config-flag-after-other-flags")
+		}
 	}
 	v.NT = multi
 
